@@ -30,7 +30,7 @@ import (
 	"github.com/dolthub/dolt/go/zzverif/vt"
 )
 
-const c14Rule = "base (0..22000 entries; one in five cut right after a leaf boundary, with a hot window on its end), left and right by independent drawn edit scripts (single puts/deletes in 3 shared hot windows and one private window per side, contiguous runs of up to 500 deleted or inserted keys, edits at leaf boundaries of the base, plus 0-4 explicit both-sided edits of one hot key) or by a drawn special shape (one side unchanged, one side emptied, both sides identical, a common script on both sides first); sides built through MutableMap from the base tree or in bulk; collision handler drawn from {always conflict, take left, take right, field-wise combine (delete wins), conflict on odd keys else take right}. A key-wise model gives the expected map and the expected set of divergent keys. Compared: prolly.MergeMaps result and handler invocations (key, both diffs' from/to/type); tree.PatchGeneratorFromRoots+SendPatches+ApplyPatches on the left root (same root as MergeMaps, same invocations); every tree.ThreeWayDiffer output (op, key, base/left/right/merged) and its resolve-callback invocations; root hash of the merged map vs a bulk build of the expected content. Non-trivial: at least one divergent key, at least one range patch (level>0) sent for the right side, and base height>=2; distinct by hash of (schema, size, shape, scripts, handler)."
+const c14Rule = "base (0..22000 entries; one in five cut right after a leaf boundary, with a hot window on its end), left and right by independent drawn edit scripts (single puts/deletes in 3 shared hot windows and one private window per side, contiguous runs of up to 500 deleted or inserted keys, edits at leaf boundaries of the base, plus 0-4 explicit both-sided edits of one hot key, and on cut bases an append past the end on one side against a delete of the last keys on the other) or by a drawn special shape (one side unchanged, one side emptied, both sides identical, a common script on both sides first); sides built through MutableMap from the base tree or in bulk; collision handler drawn from {always conflict, take left, take right, field-wise combine (delete wins), conflict on odd keys else take right}. A key-wise model gives the expected map and the expected set of divergent keys. Compared: prolly.MergeMaps result and handler invocations (key, both diffs' from/to/type); tree.PatchGeneratorFromRoots+SendPatches+ApplyPatches on the left root (same root as MergeMaps, same invocations); every tree.ThreeWayDiffer output (op, key, base/left/right/merged) and its resolve-callback invocations; root hash of the merged map vs a bulk build of the expected content. Non-trivial: at least one divergent key, at least one range patch (level>0) sent for the right side, and base height>=2; distinct by hash of (schema, size, shape, scripts, handler)."
 
 type c14Handler int
 
@@ -269,6 +269,31 @@ func c14Case(t *rapid.T, rec *vh.Recorder) {
 		sname = "independent"
 		ls = side(gl, "l", L)
 		rs = side(gr, "r", R)
+	}
+	// on a base that ends on a natural boundary: one side appends past the end, the other
+	// deletes the last keys (the patch for the last node of a level is the special case of
+	// getNextAndSplitIfAtEnd)
+	if cutBase && shapeKind >= 5 && rapid.Bool().Draw(t, "tailOps") {
+		if p, ok := c12PosOf(ks.Kinds[0], B.E[B.Len()-1].K[0]); ok {
+			m := rapid.IntRange(1, 400).Draw(t, "tailAppend")
+			k := rapid.IntRange(1, 50).Draw(t, "tailDelete")
+			ad, ag, ae, dd, dg, de := L, gl, &ls, R, gr, &rs
+			if rapid.Bool().Draw(t, "tailAppendOnRight") {
+				ad, ag, ae, dd, dg, de = R, gr, &rs, L, gl, &ls
+			}
+			for i := 1; i <= m; i++ {
+				kk, vv := w.keyAt(p+i, (p+i)%4), w.valAt(i)
+				ad.Put(kk, vv)
+				*ae = append(*ae, c12Edit{K: kk, V: vv})
+			}
+			ag.note("append %d past the end", m)
+			for i := 0; i < k && i < B.Len(); i++ {
+				kk := B.E[B.Len()-1-i].K
+				dd.Delete(kk)
+				*de = append(*de, c12Edit{K: kk, Del: true})
+			}
+			dg.note("delete the last %d base keys", k)
+		}
 	}
 	// explicit both-sided edits of one key (different values, same value, or delete vs modify)
 	if shapeKind >= 5 {
